@@ -8,7 +8,7 @@ from concurrent.futures import ThreadPoolExecutor
 
 VERIF = os.path.dirname(os.path.dirname(os.path.abspath(__file__)))
 REPO = os.environ.get("BEE2_REPO", "/repo")
-WORK = os.path.join(VERIF, ".work")
+WORK = os.environ.get("VERIF_WORK") or os.path.join(VERIF, ".work")
 ASTDUMP = os.path.join(VERIF, "tools", "bin", "astdump")
 
 BASE_FLAGS = ["-std=gnu11", "-I%s/include" % REPO, "-I%s/src" % REPO, "-UNDEBUG"]
